@@ -43,6 +43,7 @@ func (s *IterVisitor) All(root Node) iter.Seq[Node] {
 func (s *IterVisitor) send(v Node) bool {
 	verifBeforeSend(s, v)
 	s.nodeC <- v
+	verifAfterSend(s, v)
 	return true
 }
 
